@@ -1501,6 +1501,7 @@ def sec_circuits(run, rng):
         report(run, "measure:model", f"engine.M matches neither model consistently (M_real {n_spec}, M_old {n_real} of {len(metas)})", {}, concrete=False)
     # ---- public API: Clifford.samples() through sample_shots
     zero = 0
+    views_bad = 0
     for j in range(12 if quick else 60):
         n = rng.randint(2, 4)
         descs = random_descs(rng, n, rng.randint(3, 5 * n), a1, a2)
@@ -1509,6 +1510,19 @@ def sec_circuits(run, rng):
         c.add(gates.M(*qs))
         psi = statevector(make_circuit(n, descs))
         smp = np.asarray(b.execute_circuit(c, nshots=6).samples())
+        # views of the result object: exact consistency of samples / decimal samples / frequencies (binary and decimal)
+        cc = make_circuit(n, descs)
+        cc.add(gates.M(*qs))
+        rv = b.execute_circuit(cc, nshots=9)
+        sv = np.asarray(rv.samples())
+        dec = [int("".join(str(int(v)) for v in row), 2) for row in sv]
+        import collections
+        ok_views = (list(np.asarray(rv.samples(binary=False)).ravel().astype(int)) == dec
+                    and dict(rv.frequencies(binary=False)) == dict(collections.Counter(dec))
+                    and dict(rv.frequencies(binary=True)) == dict(collections.Counter("".join(str(int(v)) for v in row) for row in sv))
+                    and sv.shape == (9, len(qs)))
+        views_bad += (not ok_views)
+        run.case(["views", n, descs, qs, dec])
         for row in smp:
             run.case(["samples", n, descs, qs, [int(v) for v in row]])
             if born_probability(psi, n, qs, row) < TOL:
@@ -1516,6 +1530,10 @@ def sec_circuits(run, rng):
                 report(run, "measure:samples:random", f"Clifford.samples() returned {[int(v) for v in row]} for qubits {qs}: Born probability 0",
                        {"kind": "samples", "n": n, "descs": descs, "qubits": qs})
     run.notes["measurement"]["public_api_samples_with_zero_probability"] = zero
+    run.oblige("correspondence:Clifford result views agree exactly: samples (one column per measured qubit, in the order given to M), "
+               "decimal samples, frequencies (binary / decimal) are the counts of the sample rows", views_bad == 0, "correspondence")
+    if views_bad:
+        report(run, "views:consistency", "Clifford.samples()/frequencies() views are inconsistent with each other", {"kind": "views"}, concrete=False)
 
 
 # ---------------------------------------------------------------- refusal of non-Clifford circuits
@@ -2027,7 +2045,6 @@ def sec_static(run):
         run.find("static:assumptions", "Print Assumptions file for C12/Props does not compile", {}, concrete=False)
     run.not_proved += [
         "uniqueness of the state stabilised by n independent commuting generators (standard; not formalised)",
-        "non-vanishing of the state vector of a circuit (premise `nonzero` of determined_spec_stabilises)",
         "tableau -> circuit, BM20 (n <= 3): test only (AG04 is proved: ag04_ok, and its model is tied gate for gate)",
         "flag_sound / flag_complete_K / controlled_flag_ok / cr_flag_ok: REFUTED (open findings)"]
 
